@@ -697,6 +697,79 @@ func TestVerif_C24(t *testing.T) {
 		}
 	})
 
+	// ---------------- XFCC identity over request SEQUENCES ----------------
+	// One authenticator value serves several requests in a row. The identity
+	// is a function of the header of THIS request only: whatever earlier
+	// requests carried (same Hash, same URI, same anything) must not matter.
+	seqSubjects := []vfC24Subject{
+		{name: "CN=alice", raw: `CN=alice`, readings: []string{"CN=alice"}},
+		{name: "CN=mallory", raw: `CN=mallory`, readings: []string{"CN=mallory"}},
+		{name: "O=x,CN=carol", raw: `"O=x,CN=carol"`, readings: []string{"O=x,CN=carol"}},
+		{name: "O=x", raw: `O=x`, readings: []string{"O=x"}},
+	}
+	seqOther := []string{"", "Hash=H1", "Hash=H2", `URI=spiffe://u1;By=spiffe://b1`}
+	seqLen := venum.QT(2, 3)
+	venum.Explore(t, venum.Cfg{Name: "xfcc-identity-sequences", Shardable: true}, func(x *venum.X) {
+		sel := x.Pick("select", "first", "last")
+		fn, cerr := MtlsAuthenticateXfcc(MtlsAuthenticateXfccConfig{SelectElement: sel})
+		if cerr != nil {
+			venum.EngineError("MtlsAuthenticateXfcc: %v", cerr)
+			return
+		}
+		var outcome []string
+		prevKey := "none"
+		for step := 0; step < seqLen; step++ {
+			subj := seqSubjects[x.Choose(len(seqSubjects), fmt.Sprintf("s%d.subject", step))]
+			other := seqOther[x.Choose(len(seqOther), fmt.Sprintf("s%d.other-pairs", step))]
+			mine := "Subject=" + subj.raw
+			if other != "" {
+				mine = other + ";" + mine
+			}
+			decoy := `Hash=H1;Subject="CN=decoy,O=d"`
+			hdr := mine + "," + decoy
+			if sel == "last" {
+				hdr = decoy + "," + mine
+			}
+			got, err := fn(vfC24Req("X-Forwarded-Client-Cert", hdr, true))
+			raw, unesc, found, _ := vfC24RefCN(subj.readings[0])
+			want := []string{""}
+			if found {
+				want = []string{raw, unesc}
+			}
+			rel := "first-request"
+			if step > 0 {
+				rel = "after-request-with-" + prevKey
+			}
+			cls := "C24:xfcc-sequence:" + rel + ":" + subj.name
+			switch {
+			case err != nil && found:
+				x.Failf(cls+":rejected", "request %d, header %q: rejected: %v", step, hdr, err)
+			case err == nil && got == nil:
+				x.Failf(cls+":nil-context", "request %d, header %q: nil context", step, hdr)
+			case err == nil && !vfC24In(got.Principal, want):
+				x.Failf(cls+":wrong-principal", "request %d of a sequence through one authenticator, header %q (select %s): principal %q, CN of the selected subject is %q (claims subject %v)",
+					step, hdr, sel, got.Principal, want, got.Claims["subject"])
+			case err == nil:
+				if cs, _ := got.Claims["subject"].(string); cs != subj.readings[0] {
+					x.Failf(cls+":wrong-subject", "request %d, header %q: claims subject %q, want %q", step, hdr, cs, subj.readings[0])
+				}
+			}
+			if err != nil {
+				outcome = append(outcome, "reject")
+			} else if got != nil {
+				outcome = append(outcome, got.Principal)
+			}
+			prevKey = "same-other-pairs"
+			_ = other
+			if other == "" {
+				prevKey = "no-other-pairs"
+			} else {
+				prevKey = strings.SplitN(other, "=", 2)[0] + "-pair"
+			}
+		}
+		x.Outcome("%s", strings.Join(outcome, ">"))
+	})
+
 	// ---------------- XFCC noise ----------------
 	noise := []string{`"`, `\`, `,`, `;`, `=`, `%`, ` `, "\x00", "%zz", "é", "\xff"}
 	if !venum.Thorough() {
